@@ -5,7 +5,7 @@ import PPLV.PolyFull.ProofsGlue12
 /-!
 # Integration stage — `GlueFacts` from `ConvContract`
 
-`glueFacts_of_contract_partial`: every field of `GlueFacts` from the conversion contract.  Fully proved:
+`glueFacts_of_contract`: every field of `GlueFacts` from the conversion contract:
 `update_generators`, `update_constraints`, `minimize`, `is_empty`, the two "description required"
 helpers, and of `process_pending_constraints/generators` everything from
 `sort_pending_and_remove_duplicates` on (`ppcTail_facts`, `ppgTail_facts`), plus the fact that the
@@ -15,27 +15,19 @@ preparation steps keep topology, dimension, the other system and all status flag
 `compare` is exact on the rows that matter (`cmpExactC`, `cmpExactG`, part 8), so
 `sort_pending_and_remove_duplicates` drops only rows whose engine reading is among the non-pending ones.
 
-**What is missing (`_partial`)** — ONE named hypothesis, `NcolsFact` (part 10): the saturation matrices
-flagged up to date have the width of the system of their columns (`sat_c.num_columns()` = number of
-non-pending constraints, `sat_g.num_columns()` = number of non-pending generators).  It is NOT derivable
-from `FPoly.Inv` as it stands: `EnginePair.satC/satG` constrain only `BitMat.rows` (`SatCorrect`), while
-`BitMat.transposeOf` (`Bit_Matrix::transpose_assign`) uses `BitMat.ncols` as the height of the result.  It
-holds of everything the model builds (`engineMinimize`/`engineAddAndMinimize`: `⟨m.sat, m.dest.length⟩`,
-`⟨m.sat, m.source.length⟩`; `updateSatC/G`; `transposeOf`), so the repair is to add the two widths to
-`EnginePair` (and hence to `EnginePost` / `ConvContract`); then `NcolsFact` is a projection.
-
-Given `NcolsFact`, the preparation steps of `process_pending_constraints/generators`
-(`sat_c := transpose(sat_g)`, `obtain_sorted_constraints_with_sat_c()`: transposition,
-`sort_and_remove_with_sat`, transposition back) are PROVED to keep the pending index, the row sets and the
-minimal double description pair with both matrices exact (`sortKeepsPairC_of_ncols`, part 10;
-`sortKeepsPairG_of_ncols`, part 12): the non-pending rows of a minimal pair are duplicate free
-(`EnginePair.nodupC/G`), so the sort is a permutation of the pairs (row, saturation row) and leaves no
-garbage slot (`sortAndRemoveWithSat_nodup`); `SatCorrect` is a property of the pairs
+The preparation steps of `process_pending_constraints/generators` (`sat_c := transpose(sat_g)`,
+`obtain_sorted_constraints_with_sat_c()`: transposition, `sort_and_remove_with_sat`, transposition back)
+keep the pending index, the row sets and the minimal double description pair with both matrices exact
+(`sortKeepsPairC`, part 10; `sortKeepsPairG`, part 12): the non-pending rows of a minimal pair are
+duplicate free (`EnginePair.nodupC/G`), so the sort is a permutation of the pairs (row, saturation row) and
+leaves no garbage slot (`sortAndRemoveWithSat_nodup`); `SatCorrect` is a property of the pairs
 (`satCorrect_iff_pairs`); `Generated` does not depend on the order (`generated_perm`, part 11);
-`EnginePair.permC/permG`.
+`EnginePair.permC/permG`; the transpositions by `PPLV.Conv.satCorrect_transpose`, with the widths of the
+matrices that `EnginePair.satC/satG` record (`Bit_Matrix::transpose_assign` turns the width into the height).
 
-`glueFacts_of_contract_partial` keeps the two intermediate statements `SortKeepsPairC/G` (part 7) as
-hypotheses; `glueFacts_of_contract_ncols_partial` discharges them from `NcolsFact`.
+Nothing is `_partial`: `glueFacts_of_contract (C : ConvContract) : GlueFacts`.
+`glueFacts_of_contract_partial` (the two intermediate statements `SortKeepsPairC/G` of part 7 as
+hypotheses) is kept as the lemma the final theorem instantiates.
 -/
 namespace PPLV.PolyFull
 open PPLV.Lin PPLV.PolyOps
@@ -74,8 +66,8 @@ theorem glueFacts_of_contract_partial (C : ConvContract) (hSortC : SortKeepsPair
     needCons := needCons_facts hC hPg
     needGens := needGens_facts hG hPc }
 
-/-- **`GlueFacts` from the conversion contract**, modulo the widths of the saturation matrices -/
-theorem glueFacts_of_contract_ncols_partial (C : ConvContract) (hN : NcolsFact) : GlueFacts :=
-  glueFacts_of_contract_partial C (sortKeepsPairC_of_ncols hN) (sortKeepsPairG_of_ncols hN)
+/-- **`GlueFacts` from the conversion contract** -/
+theorem glueFacts_of_contract (C : ConvContract) : GlueFacts :=
+  glueFacts_of_contract_partial C sortKeepsPairC sortKeepsPairG
 
 end PPLV.PolyFull
